@@ -20,6 +20,7 @@ package impl
 // A parse/load error of the INPUT text replies "E,…" (the case is then not a formatter case).
 
 import (
+	"encoding/json"
 	"bytes"
 	"sort"
 	"strconv"
@@ -381,6 +382,32 @@ func init() {
 			}
 			if out2 := FormatQuery(c, false, d2); out2 != out {
 				return "not-a-fixpoint:" + hx(out) + ":" + hx(out2)
+			}
+			return "ok"
+		})
+	}
+	// rtqjson <cfgs> <hex JSON text of an executable document>: the tree is built WITHOUT the parser
+	// (encoding/json), then formatted, parsed and compared as in rtq — the way a tree generator meets
+	// the formatter when the parser itself refuses a text of the grammar
+	Ops["rtqjson"] = func(a []string) string {
+		text := texts(a[1:])[0]
+		build := func() (*ast.QueryDocument, error) {
+			d := &ast.QueryDocument{}
+			err := json.Unmarshal([]byte(text), d)
+			return d, err
+		}
+		if _, err := build(); err != nil {
+			return "E,0,0," + hx(err.Error())
+		}
+		return joinCfgs(a, a[0], func(c FmtCfg) string {
+			d, _ := build()
+			out := FormatQuery(c, false, d)
+			d2, err := parseQ(out)
+			if err != nil {
+				return "reparse-fails:" + errLabel(err) + ":" + hx(err.Error()) + ":" + hx(out)
+			}
+			if a, b := sxNoPosQ(d), sxNoPosQ(d2); a != b {
+				return "tree-differs:" + sxDiffLabel(a, b) + ":" + hx(out)
 			}
 			return "ok"
 		})
